@@ -308,6 +308,52 @@ def evalApprox (op : String) (a : List Tok) (rhs : List Tok) : Option (Bool × S
         | .error _ => false
       some (okc && oku && fToInt w.toNat fmn == rmn && fToInt w.toNat fmx == rmx,
         s!"{showList m} {rshow toString u} {fToInt w.toNat fmn} {fToInt w.toNat fmx}")
+  | "f_pidrepr32", [.int w, .int q, .int period, .int order, .list gains, .list limits, .int bs, .int ys, .int setp, .int mn, .int mx],
+      [.list r, .int ru, .int rmn, .int rmx] =>
+    -- `Pid::<f64>::build::<C, f32>`: the scaled gains / limits / period are narrowed to the builder intermediate type
+    -- f32, `PidBuilder::<f32>` builds (compared per gain as in `f_pid32`), offset and limits are applied in C
+    let (g, lim) := pidReprArgs (gains.map fOfBits) (limits.map fOfBits) (fOfBits bs)
+    let g32 := g.map Float.toFloat32
+    let lim32 : List (Option Float32) := lim.map fun l => match l with
+      | some v => let x := v.toFloat32; if x.isInf then none else some x
+      | none => none
+    let p32 := (fOfBits period).toFloat32
+    let off := -(fOfBits setp) * fOfBits ys
+    let fmn := fOfBits mn * fOfBits ys
+    let fmx := fOfBits mx * fOfBits ys
+    if w == 0 then
+      let (c0, c1, c2, c3, c4) := pidBuild float32Ops (fun x => x.toFloat) (0 : Float) (· + ·) (fun k x => Float.ofInt k * x)
+        p32 order.toNat g32 lim32
+      let rec' := fun (b0 b1 b2 a1 a2 : Float) => [b0 + b1 + b2, -(b1 + 2 * b2), b2, 1 + a1 + a2, -(a1 + 2 * a2), a2]
+      let m := rec' c0 c1 c2 c3 c4
+      match r.map fOfBits with
+      | [e0, e1, e2, e3, e4] =>
+        let e := rec' e0 e1 e2 e3 e4
+        let sc := m.foldl (fun acc v => if v.abs > acc then v.abs else acc) 1e-300
+        let okc := (List.zip m e).zipIdx.all fun ((x, y), i) =>
+          (x.isNaN && y.isNaN) || x == y || (x - y).abs ≤ 4e-6 * (if i == 3 then 1 + x.abs else x.abs) + 1e-13 * sc
+        let u := off * (c0 + c1 + c2)
+        let eu := fOfBits ru
+        let oku := (u.isNaN && eu.isNaN) || u == eu || (u - eu).abs ≤ 1e-5 * (off.abs * sc + 1e-300)
+        some (okc && oku && f64eq fmn (fOfBits rmn) && f64eq fmx (fOfBits rmx), s!"{showList ([c0, c1, c2, c3, c4].map fToBits)} {fToBits u}")
+      | _ => some (false, "arity")
+    else
+      let (c0, c1, c2, c3, c4) := pidBuild float32Ops (quantizeInt32 w.toNat q.toNat) (0 : Int) (· + ·) (fun k x => k * x)
+        p32 order.toNat g32 lim32
+      let one : Int := 2 ^ q.toNat
+      let rec' := fun (b0 b1 b2 a1 a2 : Int) => [b0 + b1 + b2, -(b1 + 2 * b2), b2, one + a1 + a2, -(a1 + 2 * a2), a2]
+      match r with
+      | [e0, e1, e2, e3, e4] =>
+        let okc := (List.zip (rec' c0 c1 c2 c3 c4) (rec' e0 e1 e2 e3 e4)).zipIdx.all fun ((x, y), i) =>
+          (x - y).natAbs ≤ 2 + (if i == 3 then one else x.natAbs) / 2 ^ 18
+        -- the offset is computed from the IMPLEMENTATION's coefficients (exact integer arithmetic from there on)
+        let cfg : BiquadCfg := ⟨e0, e1, e2, e3, e4, 0, minI w.toNat, maxI w.toNat⟩
+        let u := biquadSetInputOffset .checked w.toNat q.toNat cfg (fToInt w.toNat off)
+        let oku := match u with
+          | .ok v => v == ru
+          | .error _ => false
+        some (okc && oku && fToInt w.toNat fmn == rmn && fToInt w.toNat fmx == rmx, s!"{showList [c0, c1, c2, c3, c4]} {rshow toString u}")
+      | _ => some (false, "arity")
   | "f_ba", [.int w, .int q, .list [b0, b1, b2, a0, a1, a2], .int bs, .int ys, .int u, .int mn, .int mx],
       [.list r, .int ru, .int rmn, .int rmx] =>
     -- `BiquadRepr::Ba(..).build(period, b_scale, y_scale)`
